@@ -228,7 +228,7 @@ def oracle(case, out):
                 if va != vb:
                     diff = [q for q in va if va[q] != vb[q]]
                     pat = "trajectory-depends-on-map-order:" + r["map"]
-                    if infs and emon and diff == ["msg"] and "limits" in (a["msg"], b["msg"]):
+                    if infs and emon and "msg" in diff and "limits" in (a["msg"], b["msg"]):
                         # F13 seen through the evaluation limit: python_map + evaluation monitor counts every call (len(monitor)), a supplied
                         # map feeds a Null monitor and the counter skips infinite energies: only the evaluation-limit stop differs
                         pat = "evaluation-limit-stop-differs-builtin-vs-supplied-map:de2-skips-infinite-energies-without-evaluation-monitor"
